@@ -17,6 +17,11 @@ Two kinds of facts, chosen so that behaviour-preserving refactorings do not chan
   not recognised it is determined by probing the real `_getInstance` with a falsy stored instance.
 * The lock shape (which functions touch `_pyroInstances`, inside / outside `with <the single-instance lock>`; a local that is
   bound exactly once to `self.create_single_instance_lock` counts as the lock) — this one is lexical by nature.
+* Private helpers: a nested def, a private (static/class/plain) method of the same class and a private module function are the
+  same thing.  Calls of them from `_getInstance` are written f<i>(...) and the creation helper's body is taken from wherever it
+  lives; for the lock shape and the "who touches the tables" lists a private helper all of whose call sites are in the anchor
+  functions (`Daemon.__init__`, `Daemon._getInstance`, `SocketConnection.__init__`, `SocketConnection.close`) or in other such
+  helpers is expanded into its callers (with the lock state of the call site) and has no row of its own.
 """
 import ast
 import copy
@@ -498,9 +503,40 @@ def extract():
     fixed = {}
     for i, p in enumerate([p for p in params if p != "self"]):
         fixed[p] = "a%d" % i
-    helpers = [st for st in gi.body if isinstance(st, ast.FunctionDef)]
-    for i, h in enumerate(helpers):
-        fixed[h.name] = "f%d" % i
+    # private helpers of _getInstance: a nested def, a private (static/class/plain) method of Daemon or a private module
+    # function are the same thing here; their calls are written f<i>(...) and the first one's body is the creation helper
+    nested = {st.name: st for st in gi.body if isinstance(st, ast.FunctionDef)}
+    mod_fns = {n.name: n for n in tree.body if isinstance(n, ast.FunctionDef)}
+    helpers = []           # (key name used in the rewritten tree, FunctionDef, number of leading self/cls parameters)
+
+    def private(name):
+        return name.startswith("_") and not name.startswith("__")
+
+    class CallRewriter(ast.NodeTransformer):
+        def visit_Call(self, node):
+            self.generic_visit(node)
+            f = node.func
+            target = None
+            if isinstance(f, ast.Name) and f.id in nested:
+                target = (f.id, nested[f.id], 0)
+            elif isinstance(f, ast.Name) and f.id in mod_fns and private(f.id):
+                target = (f.id, mod_fns[f.id], 0)
+            elif isinstance(f, ast.Attribute) and isinstance(f.value, ast.Name) and f.value.id in ("self", "cls", daemon.name) \
+                    and f.attr in fns and private(f.attr) and f.attr != gi.name:
+                h = fns[f.attr]
+                static = any(getattr(d, "id", None) == "staticmethod" for d in h.decorator_list)
+                target = ("__helper_" + f.attr, h, 0 if static else 1)
+            if target is None:
+                return node
+            if target[0] not in [k for k, _, _ in helpers]:
+                helpers.append(target)
+            return ast.copy_location(ast.Call(func=ast.Name(id=target[0], ctx=ast.Load()), args=node.args,
+                                              keywords=node.keywords), node)
+    gi = CallRewriter().visit(gi)
+    for i, (key, _, _) in enumerate(helpers):
+        fixed[key] = "f%d" % i
+    for name in nested:
+        fixed.setdefault(name, "f?")           # a nested def that is never called
     body = norm([st for st in gi.body if not isinstance(st, ast.FunctionDef)])
     # the statement(s) before the mode chain bind the function-level locals (mode, creator)
     pre = []
@@ -563,91 +599,137 @@ def extract():
 
     # ---- the creation helper ----------------------------------------------------------------
     if len(helpers) != 1:
-        raise ValueError("_getInstance: expected one nested creation helper, found %d" % len(helpers))
-    hp, hl = local_names_of(helpers[0])
-    hfixed = {p: "a%d" % i for i, p in enumerate(hp)}
-    create_shape = show(norm(helpers[0].body), Renamer(hfixed, hl))
+        create_shape = "unknown: %d private helpers called from _getInstance" % len(helpers)
+    else:
+        _, hfn, skip = helpers[0]
+        hfn = inline_attribute_aliases(hfn)
+        hp, hl = local_names_of(hfn)
+        hfixed = {p: "a%d" % i for i, p in enumerate(hp[skip:])}
+        create_shape = show(norm(hfn.body), Renamer(hfixed, hl))
 
-    # ---- lock shape ---------------------------------------------------------------------------
-    shape = []
+    # ---- lock shape and table users: private helpers are expanded into the functions that call them ------------
+    ANCHORS = {"Daemon.__init__", "Daemon._getInstance", "SocketConnection.__init__", "SocketConnection.close"}
+    TABLES = ("_pyroInstances", "pyroInstances")
 
-    def count(fn):
-        inside = outside = 0
-        aliases = set()
-        binds = {}
-        for n in ast.walk(fn):
-            if isinstance(n, ast.Assign) and len(n.targets) == 1 and isinstance(n.targets[0], ast.Name):
-                binds.setdefault(n.targets[0].id, []).append(n.value)
-        for name, vals in binds.items():
-            if len(vals) == 1 and isinstance(vals[0], ast.Attribute) and vals[0].attr == "create_single_instance_lock" \
-                    and getattr(vals[0].value, "id", None) == "self":
-                aliases.add(name)
+    def index_module(t):
+        idx = {}
+        for top in t.body:
+            if isinstance(top, ast.ClassDef):
+                for st in top.body:
+                    if isinstance(st, (ast.FunctionDef, ast.AsyncFunctionDef)):
+                        idx["%s.%s" % (top.name, st.name)] = (top.name, st)
+            elif isinstance(top, (ast.FunctionDef, ast.AsyncFunctionDef)):
+                idx[top.name] = (None, top)
+        return idx
 
-        def is_lock(e):
-            return (isinstance(e, ast.Attribute) and e.attr == "create_single_instance_lock"
-                    and getattr(e.value, "id", None) == "self") or (isinstance(e, ast.Name) and e.id in aliases)
+    def resolve(call, clsname, idx):
+        f = call.func
+        if isinstance(f, ast.Attribute) and isinstance(f.value, ast.Name) and clsname and f.value.id in ("self", "cls", clsname):
+            q = "%s.%s" % (clsname, f.attr)
+            return q if q in idx else None
+        if isinstance(f, ast.Name) and f.id in idx:
+            return f.id
+        return None
 
-        def visit(n, locked):
-            nonlocal inside, outside
-            if isinstance(n, ast.With):
-                lk = any(is_lock(i.context_expr) for i in n.items)
-                for i in n.items:
-                    visit(i.context_expr, locked)
-                for st in n.body:
-                    visit(st, locked or lk)
-                return
-            if isinstance(n, ast.Attribute) and n.attr == "_pyroInstances":
-                if locked:
-                    inside += 1
-                else:
-                    outside += 1
-            for ch in ast.iter_child_nodes(n):
-                visit(ch, locked)
-        for st in fn.body:
-            visit(st, False)
-        return inside, outside
-    for top in tree.body:
-        if isinstance(top, ast.ClassDef):
-            for st in top.body:
-                if isinstance(st, ast.FunctionDef):
-                    i, o = count(st)
-                    if i or o:
-                        shape.append(("%s.%s" % (top.name, st.name), i, o))
-                elif any(isinstance(n, (ast.Name, ast.Attribute)) and getattr(n, "id", getattr(n, "attr", None)) == "_pyroInstances"
-                         for n in ast.walk(st)):
-                    shape.append(("%s.<class body>" % top.name, 0, 1))
-        elif isinstance(top, ast.FunctionDef):
-            i, o = count(top)
+    def analyse(t):
+        """-> {qualified function: (inside, outside)} of accesses of `._pyroInstances` and the set of functions that mention
+        either table, where a private helper all of whose call sites are in anchors (or in such helpers) is expanded into them"""
+        idx = index_module(t)
+        callsites = {q: [] for q in idx}
+        for q, (cn, fn) in idx.items():
+            for n in ast.walk(fn):
+                if isinstance(n, ast.Call):
+                    r = resolve(n, cn, idx)
+                    if r is not None and r != q:
+                        callsites[r].append(q)
+        absorbed = set()
+        changed = True
+        while changed:
+            changed = False
+            for q in idx:
+                if q in absorbed or q in ANCHORS or not private(q.split(".")[-1]) or not callsites[q]:
+                    continue
+                if all(c in ANCHORS or c in absorbed for c in callsites[q]):
+                    absorbed.add(q)
+                    changed = True
+
+        def lock_aliases(fn):
+            binds = {}
+            for n in ast.walk(fn):
+                if isinstance(n, ast.Assign) and len(n.targets) == 1 and isinstance(n.targets[0], ast.Name):
+                    binds.setdefault(n.targets[0].id, []).append(n.value)
+            return {name for name, vals in binds.items()
+                    if len(vals) == 1 and isinstance(vals[0], ast.Attribute) and vals[0].attr == "create_single_instance_lock"
+                    and getattr(vals[0].value, "id", None) == "self"}
+
+        def count(q, locked, depth=0):
+            cn, fn = idx[q]
+            aliases = lock_aliases(fn)
+            res = [0, 0, False]        # inside, outside, mentions a table
+
+            def is_lock(e):
+                return (isinstance(e, ast.Attribute) and e.attr == "create_single_instance_lock"
+                        and getattr(e.value, "id", None) == "self") or (isinstance(e, ast.Name) and e.id in aliases)
+
+            def visit(n, locked):
+                if isinstance(n, ast.With):
+                    lk = any(is_lock(i.context_expr) for i in n.items)
+                    for i in n.items:
+                        visit(i.context_expr, locked)
+                    for st in n.body:
+                        visit(st, locked or lk)
+                    return
+                if isinstance(n, ast.Attribute) and n.attr in TABLES:
+                    res[2] = True
+                    if n.attr == "_pyroInstances":
+                        res[0 if locked else 1] += 1
+                if isinstance(n, ast.Call) and depth < 6:
+                    r = resolve(n, cn, idx)
+                    if r in absorbed:
+                        sub = count(r, locked, depth + 1)
+                        res[0] += sub[0]
+                        res[1] += sub[1]
+                        res[2] = res[2] or sub[2]
+                for ch in ast.iter_child_nodes(n):
+                    visit(ch, locked)
+            for st in fn.body:
+                visit(st, locked)
+            return res
+        rows, mentions = [], []
+        for q in idx:
+            if q in absorbed:
+                continue
+            i, o, m = count(q, False)
             if i or o:
-                shape.append((top.name, i, o))
+                rows.append((q, i, o))
+            if m:
+                mentions.append(q)
+        # class bodies / module level
+        for top in t.body:
+            body_nodes = [st for st in top.body if not isinstance(st, (ast.FunctionDef, ast.AsyncFunctionDef))] \
+                if isinstance(top, ast.ClassDef) else ([] if isinstance(top, (ast.FunctionDef, ast.AsyncFunctionDef)) else [top])
+            for st in body_nodes:
+                if any(isinstance(x, (ast.Attribute, ast.Name)) and getattr(x, "attr", getattr(x, "id", None)) in TABLES
+                       for x in ast.walk(st)):
+                    where = "%s.<class body>" % top.name if isinstance(top, ast.ClassDef) else "<module>"
+                    rows.append((where, 0, 1))
+                    mentions.append(where)
+        return rows, mentions, idx
+    shape, _, sidx = analyse(tree)
     callers = []
-    for top in tree.body:
-        for f in ([top] if isinstance(top, ast.FunctionDef) else
-                  [x for x in top.body if isinstance(x, ast.FunctionDef)] if isinstance(top, ast.ClassDef) else []):
-            k = sum(1 for n in ast.walk(f) if isinstance(n, ast.Call) and isinstance(n.func, ast.Attribute)
-                    and n.func.attr == "_getInstance")
-            if k:
-                callers.append("%s.%s:%d" % (top.name, f.name, k) if isinstance(top, ast.ClassDef) else "%s:%d" % (f.name, k))
+    for q, (cn, f) in sidx.items():
+        k = sum(1 for n in ast.walk(f) if isinstance(n, ast.Call) and isinstance(n.func, ast.Attribute)
+                and n.func.attr == "_getInstance")
+        if k:
+            callers.append("%s:%d" % (q, k))
 
     # ---- who else mentions the two tables -----------------------------------------------------
     users = []
     pkg = os.path.join(common.REPO, "Pyro5")
     for fname in sorted(os.listdir(pkg)):
-        if not fname.endswith(".py"):
-            continue
-        t = ast.parse(open(os.path.join(pkg, fname)).read())
-
-        def scan(scope, nodes):
-            for n in nodes:
-                if isinstance(n, (ast.FunctionDef, ast.AsyncFunctionDef)):
-                    if any(isinstance(x, ast.Attribute) and x.attr in ("pyroInstances", "_pyroInstances") for x in ast.walk(n)):
-                        users.append("%s:%s%s" % (fname, scope, n.name))
-                elif isinstance(n, ast.ClassDef):
-                    scan(scope + n.name + ".", n.body)
-                elif any(isinstance(x, (ast.Attribute, ast.Name)) and getattr(x, "attr", getattr(x, "id", None))
-                         in ("pyroInstances", "_pyroInstances") for x in ast.walk(n)):
-                    users.append("%s:%s<body>" % (fname, scope))
-        scan("", t.body)
+        if fname.endswith(".py"):
+            _, mentions, _ = analyse(ast.parse(open(os.path.join(pkg, fname)).read()))
+            users += ["%s:%s" % (fname, q) for q in mentions]
 
     # ---- probes ---------------------------------------------------------------------------------
     beh_rows, beh_default = probe_behavior()
